@@ -28,6 +28,38 @@ from sexp import Atom, opt
 
 MODEL = "parents"
 SHRINKABLE = True
+RULE = ("histories over one or two fonts (new, or opened from a UFO 3 written for the case so that glyphs load lazily), "
+        "their layers and glyphs, stand-alone Glyph() objects and every object ever created (removed ones are kept "
+        "alive): insert/remove/clear/list-assignment of contours, components, anchors, guidelines (glyph and font), "
+        "newGlyph (also over a loaded / an unloaded name), lazy loading, delete, rename (also onto an existing name), "
+        "Layer.insertGlyph (copy), newLayer/delete/rename layer, lazily built libs and images, attribute changes of any "
+        "live or removed object, clearing dirty flags, full accessor dumps; half of the cases start with a scripted "
+        "scenario (ghost after remove, replaced glyph, rename onto a name, layer deletion, owned twice, operations on a "
+        "deleted glyph, lazy loading, list assignment, rename away and back, two fonts), with and without a read of the "
+        "accessors before the critical step; non-trivial = something was removed/replaced AND a mutate AND an "
+        "insertion; distinct = distinct op lists")
+ASSUMPTIONS = [
+    "no operation addresses a layer by name (newGlyph, getGlyph, delete, insertGlyph) after the layer was deleted from "
+    "its font, and the default layer is never deleted: a layer without a font does not keep its own bookkeeping "
+    "(renaming one of its glyphs leaves the old key) - both sides answer `Detached`",
+    "layers are not renamed onto an existing layer name (LayerSet._layerNameChange would duplicate the name in the "
+    "layer order: outside every property's domain)",
+    "component graph acyclic; components with a base glyph only in the cross-link cases, which run on fonts built in "
+    "memory and do not compare the notification log (a base glyph's change legitimately makes referencing glyphs post)",
+    "the font lib and the contours of a loaded glyph are built eagerly by the adaptor (font.lib / len(glyph) right "
+    "after creation/loading): defcon builds them on first access, their number would otherwise depend on it",
+    "python asserts enabled (no -O): they are defcon's rejection mechanism",
+    "a list assignment (glyph.anchors = ...) is only issued with objects it will accept: a rejected one leaves the "
+    "glyph's notifications held (hold/release bracket without try/finally), which is C02/C08's subject",
+    "cache fill timing is not observable: the model fills caches at `dump`; the code also inside operations",
+]
+TRUSTED = [
+    "objects are named by creation order; the adaptor's discovery order of objects built by one operation (loading, "
+    "Layer.insertGlyph) is mirrored by the model's allocation order",
+    "registrations are read off NotificationCenter._registry (read-only) and restricted to parent<-child and self "
+    "registrations; cross links (component -> base glyph/layer, image -> image set/layer) are not modelled",
+    "the adaptor keeps every object alive for the whole case (BaseObject.__del__ unregisters observers)",
+]
 
 KINDS = ["font", "layerSet", "layer", "glyph", "contour", "component", "anchor", "guideline", "image", "lib"]
 CHILD_KINDS = ["contour", "component", "anchor", "guideline"]
@@ -338,6 +370,10 @@ class Gen(object):
         self.xlink = xlink
         self.counter = 0
 
+    def nm(self, name):
+        """scenario glyph names: in cross-link cases the hosts are never named like a base glyph (acyclic graph)"""
+        return {"A": "C", "B": "D"}.get(name, name) if self.xlink else name
+
     def emit(self, op, dump=None):
         self.sh.apply(op)
         self.ops.append(op)
@@ -508,7 +544,274 @@ class Gen(object):
             self.emit(["clean"], dump=True)
 
 
-def gen_random_case(rng, maxlen, xlink=False):
+
+# ---------------------------------------------------------------------------------------
+# scripted scenarios: the histories the property talks about, at known positions
+# ---------------------------------------------------------------------------------------
+
+def _maybe_dump(g):
+    """the critical step with and without a preceding read of the accessors (cache filled or not)"""
+    if g.rng.random() < 0.6:
+        g.emit(["dump"])
+
+
+def _populate(g, glyph, n=None):
+    rng = g.rng
+    xs = []
+    for _ in range(n if n is not None else rng.randint(1, 3)):
+        x = g.new_child()
+        g.emit(["insert", glyph, x, rng.randint(0, 3)], dump=False)
+        xs.append(x)
+    if rng.random() < 0.5:
+        g.emit(["touch", glyph, rng.choice(["lib", "image"])], dump=False)
+    return xs
+
+
+def _new_glyph(g, layer, name):
+    x = g.sh.next
+    g.emit(["newGlyph", layer, name], dump=False)
+    return x
+
+
+def sc_ghost_after_remove(g):
+    sh, rng = g.sh, g.rng
+    la = sh.live_layers()[0]
+    a = _new_glyph(g, la, g.nm("A"))
+    b = _new_glyph(g, rng.choice(sh.live_layers()), g.nm("B"))
+    xs = _populate(g, a, 2)
+    _maybe_dump(g)
+    x = rng.choice(xs)
+    g.emit(["remove", a, x], dump=rng.random() < 0.5)
+    g.mutate(x, dump=True)
+    g.emit(["clean"], dump=False)
+    g.emit(["insert", b, x, 0], dump=rng.random() < 0.5)
+    g.mutate(x, dump=True)
+    g.emit(["remove", b, x], dump=False)
+    g.emit(["insert", a, x, 1], dump=False)
+    g.emit(["clean"], dump=False)
+    g.mutate(x, dump=True)
+
+
+def sc_replaced_glyph(g):
+    sh, rng = g.sh, g.rng
+    la = rng.choice(sh.live_layers())
+    a = _new_glyph(g, la, g.nm("A"))
+    xs = _populate(g, a)
+    g.emit(["touch", a, "lib"], dump=False)
+    g.emit(["touch", a, "image"], dump=False)
+    _maybe_dump(g)
+    how = rng.random()
+    if how < 0.4:
+        g.emit(["newGlyph", la, g.nm("A")], dump=True)
+    elif how < 0.7:
+        src = _new_glyph(g, la, "S")
+        _populate(g, src, 1)
+        g.emit(["insertGlyph", la, src, g.nm("A")], dump=True)
+    else:
+        other = _new_glyph(g, la, "C")
+        g.emit(["renameGlyph", other, g.nm("A")], dump=True)
+    g.emit(["clean"], dump=False)
+    for x in [a] + xs + [k for k in sh.kids[a] if sh.kind[k] in ("lib", "image")]:
+        g.mutate(x, dump=False)
+    g.emit(["dump"])
+    # undo: the old object goes back in (as a copy), its children can be adopted by another glyph
+    g.emit(["insertGlyph", la, a, g.nm("A") if rng.random() < 0.5 else "U"], dump=True)
+    if xs:
+        tgt = sh.find_glyph(la, g.nm("A"))
+        if tgt is not None and sh.base.get(xs[0]) is None:
+            g.emit(["insert", tgt, xs[0], 0], dump=True)
+            g.emit(["clean"], dump=False)
+            g.mutate(xs[0], dump=True)
+
+
+def sc_layer_deletion(g):
+    sh, rng = g.sh, g.rng
+    f = sh.fonts()[0]
+    used = [sh.name[x] for x in sh.layer_of_font(f)]
+    free = [n for n in LAYER_NAMES if n not in used]
+    if not free:
+        return
+    la = sh.next
+    g.emit(["newLayer", f, free[0]], dump=False)
+    a = _new_glyph(g, la, g.nm("A"))
+    xs = _populate(g, a, 2)
+    g.emit(["touch", la, "lib"], dump=False)
+    if rng.random() < 0.5:
+        used = [sh.name[x] for x in sh.layer_of_font(f)]
+        g.emit(["renameLayer", la, [n for n in ["R1", "R2", "R3", "R4"] if n not in used][0]], dump=False)
+    _maybe_dump(g)
+    g.emit(["delLayer", f, sh.name[la]], dump=True)
+    g.emit(["clean"], dump=False)
+    for x in [la, a] + xs + [k for k in sh.kids[la] if sh.kind[k] == "lib"]:
+        g.mutate(x, dump=False)
+    g.emit(["dump"])
+    d = sh.layer_of_font(f)[0]
+    g.emit(["insertGlyph", d, a, rng.choice([g.nm("A"), "Q"])], dump=True)
+    b = _new_glyph(g, d, g.nm("B"))
+    if sh.base.get(xs[0]) is None or "B" not in BASES:
+        pass
+    if sh.base.get(xs[0]) is None:
+        g.emit(["insert", b, xs[0], 0], dump=True)
+        g.emit(["clean"], dump=False)
+        g.mutate(xs[0], dump=True)
+    # the deleted layer can be created again under its old name
+    g.emit(["newLayer", f, free[0]], dump=True)
+
+
+def sc_owned_twice(g):
+    sh, rng = g.sh, g.rng
+    la = sh.live_layers()[0]
+    f = sh.fonts()[0]
+    a = _new_glyph(g, la, "C")
+    b = _new_glyph(g, la, "D")
+    gl = g.new_child("guideline")
+    g.emit(["insert", a, gl, 0], dump=False)
+    an = g.new_child("anchor")
+    g.emit(["insert", a, an, 0], dump=False)
+    fg = g.new_child("guideline")
+    g.emit(["insert", f, fg, 0], dump=False)
+    _maybe_dump(g)
+    tries = [["insert", f, gl, 0], ["insert", b, gl, 0], ["insert", b, an, 0], ["insert", a, an, 0],
+             ["insert", a, fg, 0], ["insert", f, fg, 1]]
+    if len(sh.fonts()) > 1:
+        tries.append(["insert", sh.fonts()[1], fg, 0])
+        tries.append(["insert", sh.fonts()[1], gl, 0])
+    rng.shuffle(tries)
+    for t in tries[:rng.randint(2, len(tries))]:
+        g.emit(t, dump=rng.random() < 0.5)
+    g.emit(["dump"])
+    # after the owner lets go, the same insertions are accepted
+    g.emit(["remove", a, gl], dump=False)
+    g.emit(["insert", f, gl, 0], dump=True)
+    g.emit(["remove", f, fg], dump=False)
+    g.emit(["insert", b, fg, 0], dump=True)
+    g.emit(["clean"], dump=False)
+    g.mutate(gl, dump=False)
+    g.mutate(fg, dump=True)
+
+
+def sc_dead_glyph_ops(g):
+    sh, rng = g.sh, g.rng
+    la = rng.choice(sh.live_layers())
+    a = _new_glyph(g, la, g.nm("A"))
+    xs = _populate(g, a, 3)
+    _maybe_dump(g)
+    g.emit(["delGlyph", la, g.nm("A")], dump=True)
+    b = _new_glyph(g, la, g.nm("B"))
+    plain = [x for x in xs if sh.base.get(x) is None]
+    if plain:
+        g.emit(["insert", b, plain[0], 0], dump=True)
+    # operations on the deleted glyph: its list still holds the objects it let go
+    r = rng.random()
+    if r < 0.35 and plain:
+        g.emit(["remove", a, plain[0]], dump=True)
+    elif r < 0.7:
+        g.emit(["clearAll", a], dump=True)
+    else:
+        g.emit(["clear", a, sh.kind[xs[0]]], dump=True)
+    g.emit(["clean"], dump=False)
+    for x in xs:
+        g.mutate(x, dump=False)
+    g.emit(["dump"])
+    y = g.new_child()
+    g.emit(["insert", a, y, 0], dump=True)      # a deleted glyph can still adopt
+    g.emit(["clean"], dump=False)
+    g.mutate(y, dump=True)
+
+
+def sc_lazy_loading(g):
+    sh, rng = g.sh, g.rng
+    if sh.disk is None:
+        return sc_replaced_glyph(g)
+    la = rng.choice([l for l in sh.live_layers() if l in g.disk_layer])
+    names = list(sh.unloaded[la])
+    if not names:
+        return
+    name = rng.choice(names)
+    r = rng.random()
+    if r < 0.5:
+        x = sh.next
+        g.emit(["getGlyph", la, name, g.spec_of(la, name)], dump=True)
+        kids = list(sh.kids[x])
+        g.emit(["newGlyph", la, name], dump=True)           # over a loaded glyph
+        g.emit(["clean"], dump=False)
+        for k in [x] + kids:
+            g.mutate(k, dump=False)
+        g.emit(["dump"])
+    elif r < 0.75:
+        g.emit(["newGlyph", la, name], dump=True)           # over a glyph that was never loaded
+        g.emit(["getGlyph", la, name, g.spec_of(la, name)], dump=True)
+    else:
+        other = _new_glyph(g, la, "N")
+        g.emit(["renameGlyph", other, name], dump=True)      # rename onto a name that is only on disk
+        g.emit(["delGlyph", la, name], dump=True)
+        g.emit(["getGlyph", la, name, g.spec_of(la, name)], dump=True)
+    for n2 in names[:2]:
+        g.emit(["getGlyph", la, n2, g.spec_of(la, n2)], dump=False)
+    g.emit(["dump"])
+
+
+def sc_list_assignment(g):
+    sh, rng = g.sh, g.rng
+    la = sh.live_layers()[0]
+    p = rng.choice([_new_glyph(g, la, "C"), sh.fonts()[0]])
+    role = "guideline" if sh.kind[p] == "font" else rng.choice(["anchor", "guideline"])
+    xs = []
+    for _ in range(3):
+        x = g.new_child(role)
+        g.emit(["insert", p, x, 0], dump=False)
+        xs.append(x)
+    extra = g.new_child(role)
+    _maybe_dump(g)
+    keep = rng.sample(xs, rng.randint(0, 2))
+    g.emit(["setList", p, role, keep + [extra]], dump=True)
+    g.emit(["clean"], dump=False)
+    for x in xs:
+        g.mutate(x, dump=False)
+    g.emit(["dump"])
+
+
+def sc_rename_back(g):
+    sh, rng = g.sh, g.rng
+    la = rng.choice(sh.live_layers())
+    a = _new_glyph(g, la, g.nm("A"))
+    xs = _populate(g, a, 1)
+    _maybe_dump(g)
+    g.emit(["renameGlyph", a, "X1"], dump=rng.random() < 0.5)
+    g.emit(["renameGlyph", a, g.nm("A")], dump=True)
+    g.emit(["delGlyph", la, g.nm("A")], dump=rng.random() < 0.5)
+    b = _new_glyph(g, la, g.nm("A"))
+    g.emit(["dump"])
+    g.emit(["clean"], dump=False)
+    g.mutate(a, dump=False)
+    g.mutate(xs[0], dump=True)
+
+
+def sc_two_fonts(g):
+    sh, rng = g.sh, g.rng
+    if len(sh.fonts()) < 2:
+        g.emit(["newFont"], dump=False)
+    f1, f2 = sh.fonts()[:2]
+    a = _new_glyph(g, sh.layer_of_font(f1)[0], g.nm("A"))
+    b = _new_glyph(g, sh.layer_of_font(f2)[0], g.nm("A"))
+    xs = _populate(g, a, 2)
+    plain = [x for x in xs if sh.base.get(x) is None]
+    _maybe_dump(g)
+    for x in plain:
+        g.emit(["insert", b, x, 0], dump=False)             # owned: rejected
+        g.emit(["remove", a, x], dump=rng.random() < 0.5)
+        g.emit(["insert", b, x, 0], dump=True)
+    g.emit(["clean"], dump=False)
+    for x in plain:
+        g.mutate(x, dump=True)
+    g.emit(["insertGlyph", sh.layer_of_font(f2)[0], a, "Z"], dump=True)
+
+
+SCENARIOS = [sc_ghost_after_remove, sc_replaced_glyph, sc_layer_deletion, sc_owned_twice, sc_dead_glyph_ops,
+             sc_lazy_loading, sc_list_assignment, sc_rename_back, sc_two_fonts]
+
+
+def gen_random_case(rng, maxlen, xlink=False, scenario=None):
     # cross-link cases use fonts built in memory: a component whose base glyph is only on disk loads it
     disk = gen_disk(rng) if (not xlink and rng.random() < 0.4) else None
     g = Gen(rng, disk, xlink)
@@ -527,17 +830,50 @@ def gen_random_case(rng, maxlen, xlink=False):
     for la in g.sh.live_layers()[:2]:
         if rng.random() < 0.7:
             g.emit(["newGlyph", la, rng.choice(GLYPH_NAMES)])
-    n = rng.randint(4, maxlen)
+    if scenario is not None:
+        for _ in range(rng.randint(0, 4)):
+            g.random_op()
+        SCENARIOS[scenario % len(SCENARIOS)](g)
+        if rng.random() < 0.3:
+            SCENARIOS[rng.randrange(len(SCENARIOS))](g)
+    n = max(len(g.ops) + rng.randint(0, 8), rng.randint(4, maxlen)) if scenario is not None else rng.randint(4, maxlen)
     while len(g.ops) < n:
         g.random_op()
     g.ops.append(["dump"])
-    return dict(ops=g.ops, disk=disk, xlink=xlink)
+    return dict(ops=g.ops, disk=disk, xlink=xlink, scenario=None if scenario is None else SCENARIOS[scenario % len(SCENARIOS)].__name__)
 
 
 def generate(rng, tier):
-    n, maxlen = (400, 40) if tier == "quick" else (6000, 80)
+    n, maxlen = (500, 40) if tier == "quick" else (8000, 80)
     for i in range(n):
-        yield gen_random_case(rng, maxlen, xlink=(i % 5 == 4))
+        yield gen_random_case(rng, maxlen, xlink=(i % 5 == 4), scenario=(i // 2 if i % 2 else None))
+
+
+def neighbourhood(case, step, rng):
+    """variants around a diverging step: read everything, change everything that exists, re-insert what was let go"""
+    ops = case["ops"]
+    prefix = ops[:step + 1]
+    sh = Shadow(case.get("disk"))
+    for op in prefix:
+        try:
+            sh.apply(op)
+        except Exception:
+            pass
+    ids = sorted(sh.kind)
+    yield dict(case, ops=prefix + [["dump"]])
+    tail = [["dump"], ["clean"]]
+    for n, x in enumerate(ids):
+        tail.append(["mutate", x, 1000 + n])
+    yield dict(case, ops=prefix + tail + [["dump"]])
+    glyphs = [i for i in ids if sh.kind[i] == "glyph"]
+    loose = [i for i in ids if sh.kind[i] in CHILD_KINDS and sh.owner.get(i) is None]
+    for x in loose[:6]:
+        for gl in glyphs[:4]:
+            yield dict(case, ops=prefix + [["insert", gl, x, 0], ["dump"], ["clean"], ["mutate", x, 2000], ["dump"]])
+    for la in sh.live_layers()[:2]:
+        for gl in glyphs[:4]:
+            yield dict(case, ops=prefix + [["insertGlyph", la, gl, "NB"], ["dump"]])
+    yield case
 
 
 # ---------------------------------------------------------------------------------------
@@ -855,7 +1191,15 @@ class World(object):
             if role not in ("anchor", "guideline") or (self.kind[op[1]] == "font" and role != "guideline"):
                 raise LookupError("kind")
             xs = [self.get(x, [role]) for x in op[3]]
-            setattr(p, role + "s", xs)
+            try:
+                setattr(p, role + "s", xs)
+            except Exception:
+                # the setter's hold/release bracket has no try/finally: release, so that later steps are comparable
+                try:
+                    p.releaseHeldNotifications()
+                except Exception:
+                    pass
+                raise
             return ok
         if k == "touch":
             p = self.get(op[1], ["glyph", "layer", "font"])
@@ -1220,6 +1564,12 @@ def run_impl(case):
             stats["op." + op[0]] = stats.get("op." + op[0], 0) + 1
             if isinstance(r, list) and r and r[0] == "err":
                 stats["err." + str(r[1])] = stats.get("err." + str(r[1]), 0) + 1
+        if case.get("scenario"):
+            stats["scenario." + case["scenario"]] = 1
+        if case.get("xlink"):
+            stats["xlink_cases"] = 1
+        if case.get("disk"):
+            stats["disk_cases"] = 1
         stats["objects"] = len(w.objs)
         stats["removed_objects"] = len(orc.removed)
         stats["len"] = len(case["ops"])
